@@ -127,6 +127,15 @@ def gen_case(rng):
             rhs = ("bin", "+", call, rhs) if rng.random() < 0.5 else call
             tags.add("call:%d-arguments" % len(call[2]))
         eqs.append((lhs, rhs))
+    plain = [n for n in names if "." not in n and info[n]["type"] in ("Real", "Integer")]
+    if rng.random() < 0.2 and reals and len(plain) >= 2:
+        # a user-defined function whose formal parameters / local variable carry names of model variables
+        fa, fb = rng.sample(plain, 2)
+        loc = rng.choice([n for n in plain if n not in (fa, fb)] or ["tloc"])
+        pre += ("function fsat\n  input Real %s;\n  input Real %s = 1;\n  output Real yout;\nprotected\n  Real %s;\n"
+                "algorithm\n  %s := %s * %s;\n  yout := %s + 1;\nend fsat;\n\n" % (fa, fb, loc, loc, fa, fb, loc))
+        eqs.append((var(rng.choice(reals)), ("call", "fsat", [rng.choice(leaves), rng.choice(leaves)])))
+        tags.add("user-function-with-formals-named-like-model-variables")
     for k_ in g.used:
         tags.add("op:" + k_)
     text = pre + "model M\n" + "\n".join(decls) + "\n" + ("equation\n" + "".join(
